@@ -11,6 +11,7 @@ C10_SCHEMES = ["CJJ14.PiBas", "CJJ14.PiPack", "CJJ14.PiPtr", "CJJ14.Pi2Lev", "CT
 WORDS = ["both", "only1", "only2", "none"]
 SID = "c10" + "cd" * 30 + "e"
 FOREIGN = "f" * 64
+DECOY = "c10" + "de" * 30 + "c"
 
 
 class C10(P.Property):
@@ -33,7 +34,7 @@ class C10(P.Property):
     assumptions = ["connections are consecutive, never overlapping (overlap is C12)",
                    "tokens under the other key are valid messages and must produce an empty result"]
     probe_names = ["forced_reconnect", "reconnect_inside_cleanup", "abort_reconnect", "second_config_refused", "second_upload_refused",
-                   "search_before_ready_refused", "foreign_sid_ignored", "unknown_type", "search_other_key", "search_absent_keyword"]
+                   "search_before_ready_refused", "foreign_sid_ignored", "unknown_type", "search_other_key", "search_absent_keyword", "decoy_service"]
     exhaustive = False
 
     def setup(self):
@@ -53,7 +54,10 @@ class C10(P.Property):
             K = [S.KeyGen(), S.KeyGen()]
             E = [S.EDBSetup(K[i], DB[i]).serialize() for i in range(2)]
             T = {(i, wd): S.TokenGen(K[i], wd.encode()).serialize() for i in range(2) for wd in WORDS}
-            w = self.worlds[scheme] = dict(L=L, cfgobj=L.SSEConfig(dict(c[0])), C=c, DB=DB, E=E, T=T)
+            Kd = S.KeyGen()
+            DBd = {b"both": [b"\x31" * z, b"\x32" * z, b"\x33" * z], b"only1": [b"\x34" * z, b"\x35" * z], b"only2": [b"\x36" * z]}
+            w = self.worlds[scheme] = dict(L=L, cfgobj=L.SSEConfig(dict(c[0])), C=c, DB=DB, E=E, T=T,
+                                           E_decoy=S.EDBSetup(Kd, DBd).serialize(), T_decoy=S.TokenGen(Kd, b"both").serialize())
         return w
 
     def gen(self, seed, tier):
@@ -77,7 +81,8 @@ class C10(P.Property):
                 steps.append({"do": k})
         knobs = dict(scheme=rng.choice(C10_SCHEMES),
                      net=rng.choice([dict(lo=0.001, hi=0.05), dict(lo=0.001, hi=0.05, seg=3), dict(lo=0.0005, hi=0.004), dict(lo=0.01, hi=0.3, tail=0.1, seg=2)]),
-                     skew=rng.choice([1.0, 1.0, 0.5, 2.0]), bufsize=rng.choice([8192, 8192, 16]), forced_gap=rng.choice([0, 0.5, 1.5]))
+                     skew=rng.choice([1.0, 1.0, 0.5, 2.0]), bufsize=rng.choice([8192, 8192, 16]), forced_gap=rng.choice([0, 0.5, 1.5]),
+                     decoy=rng.random() < 0.5)
         return {"property": "C10", "seed": seed, "knobs": knobs, "steps": steps}
 
     def enumerate(self, tier):
@@ -102,7 +107,7 @@ class C10(P.Property):
             if not rec["proc"].startswith("server"):
                 return
             base = rec["path"].rsplit("/", 1)[-1]
-            if base in touched and rec["kind"] != "write":
+            if base in touched and rec["kind"] != "write" and rec["path"].startswith(SID):
                 touched[base].add(msgno[0])
         run.seam.on_event = on_disk
         out = dict(obs=[], cover={}, probes={})
@@ -158,6 +163,24 @@ class C10(P.Property):
             out["obs"].append(("init", st))
             return a
 
+        if knobs.get("decoy"):
+            # another service of the same server process, brought to the ready state and searched once (so that whatever the
+            # server keeps in memory for it exists) before the history on the service under test starts
+            probes["decoy_service"] = 1
+            d = fe.RawActor(run, "decoy", DECOY)
+            await d.open()
+            await d.wait_change(lambda: d.init is not None, 30)
+            await d.send("config", pickle.dumps(C[1]))
+            await d.wait_change(lambda: "config" in d.acks, 30)
+            await d.send("upload_edb", w["E_decoy"])
+            await d.wait_change(lambda: "upload_edb" in d.acks, 30)
+            await d.send("token", w["T_decoy"], token_digest=b"decoy")
+            await d.wait_change(lambda: len(d.results) > 0, 30)
+            if not d.results:
+                viol.append(V("C10.init", "UNUSABLE", "the decoy service could not be set up"))
+                return
+            await d.close()
+            await asyncio.sleep(knobs.get("forced_gap", 0))
         a = await connect("first connection")
         if a is None:
             return
@@ -280,7 +303,7 @@ class C10(P.Property):
 
     def simplifications(self, plan):
         k = plan["knobs"]
-        for key, val in (("skew", 1.0), ("bufsize", 8192), ("scheme", "CJJ14.PiBas"), ("net", dict(lo=0.01, hi=0.01)), ("forced_gap", 0)):
+        for key, val in (("skew", 1.0), ("bufsize", 8192), ("scheme", "CJJ14.PiBas"), ("net", dict(lo=0.01, hi=0.01)), ("forced_gap", 0), ("decoy", False)):
             if k.get(key) != val:
                 yield dict(plan, knobs=dict(k, **{key: val}))
         steps = plan["steps"]
